@@ -178,10 +178,7 @@ impl Translator {
             Mul(rd, rs) => from_base_and_two_regs(0b1011_0000, rd, rs),
             Div(rd, rs) => from_base_and_two_regs(0b1100_0000, rd, rs),
             Inc(reg) => from_base_and_reg(0b0100_0100, reg),
-            Dec(src) => match src {
-                Source::Register(reg) => from_base_and_reg(0b0101_0000, reg),
-                _ => unimplemented!("DEC [something other than R*] does not work yet"),
-            },
+            Dec(src) => from_base_and_src(0b0101_0000, &src),
             Neg(reg) => from_base_and_reg(0b0011_0100, reg),
             And(rd, rs) => from_base_and_two_regs(0b1001_0000, rd, rs),
             Or(rd, rs) => from_base_and_two_regs(0b1010_0000, rd, rs),
@@ -467,6 +464,25 @@ fn from_bases_and_src(b1: u8, b2: u8, src: &Source) -> Vec<ByteOrLabel> {
         ret.push(second)
     }
     ret.push(Byte(b2));
+    ret
+}
+
+/// Create a Vector of bytes or labels from a single base and a source.
+/// ```text
+/// 0b0101_10_11 [0b10110101]
+///   BASE MS RS  addr/const
+/// ```
+fn from_base_and_src(base: u8, src: &Source) -> Vec<ByteOrLabel> {
+    use ByteOrLabel::*;
+    let first = base + (source_addr_mode(src) << 2) + source_register(src);
+    let mut ret = vec![Byte(first)];
+    // Add another byte if we need a constant or an address
+    match src {
+        Source::Constant(c) | Source::MemAddress(MemAddress::Constant(c)) => {
+            ret.push(c.clone().into())
+        }
+        _ => {}
+    }
     ret
 }
 
